@@ -409,7 +409,7 @@ impl Property for C13 {
         let max = tier.pick(30, 120);
         (
             prop_oneof![Just(2u8), Just(3u8)],
-            proptest::collection::vec(op_strategy(), 0..max),
+            prop_oneof![19 => proptest::collection::vec(op_strategy(), 0..max), 1 => proptest::collection::vec(op_strategy(), max..(4 * max))],
             any::<u16>(),
             0u8..4,
             proptest::collection::vec(prop_oneof![3 => Just(true), 1 => Just(false)], 0..tier.pick(24, 60)),
